@@ -88,9 +88,9 @@ func sameRoot(a, b accessPath) bool {
 // hashGuard describes one dominating comparison hashfn(D) == H.
 type hashGuard struct {
 	fact    Fact
-	hashArg ssa.Value   // D
-	other   ssa.Value   // H
-	path    accessPath  // access path of H
+	hashArg ssa.Value  // D
+	other   ssa.Value  // H
+	path    accessPath // access path of H
 	failBlk *ssa.BasicBlock
 }
 
